@@ -7,6 +7,7 @@ predictive models for a menu of final times; regimens derived from small dose ta
 Oracle: ref.dosing schedule semantics + ref.compartments closed form (cumulative input
 when elimination is switched off). Runs on RefSimulation (DESIGN §2.1)."""
 import itertools
+import os
 import shutil
 import tempfile
 
@@ -151,6 +152,11 @@ def w_schedule(case):
     elif seq == 'off_on':
         m.enable_sensitivities(False)
         m.enable_sensitivities(True)
+    elif seq == 'on_outputs':
+        # the outputs are selected (again) while sensitivities are on
+        m.enable_sensitivities(True)
+        m.set_outputs(outs[::-1])
+        m.set_outputs(outs)
     for elim in (0.0, case['k_e']):
         values = {}
         for n in names:
@@ -428,7 +434,8 @@ def w_dataset(case):
                          'Duration': np.nan if dur is None else dur})
         for t, dose, dur in (ind['doses'][1:] if case.get('same_row')
                              else ind['doses']):
-            rows.append({'ID': ind['id'], 'Time': t, 'Observable': np.nan,
+            rows.append({'ID': ind['id'], 'Time': np.nan if t is None else t,
+                         'Observable': np.nan,
                          'Value': np.nan, 'Dose': dose,
                          'Duration': np.nan if dur is None else dur})
     df = pd.DataFrame(rows)
@@ -447,6 +454,10 @@ def w_dataset(case):
                           'Value': np.nan, 'Dose': 5.0, 'Duration': 0.3})
         ctrl.set_data(pd.DataFrame(erows), output_observable_dict={
             'central.drug_concentration': 'conc'})
+    # (dose rows without a time are not administrations)
+    case = dict(case)
+    case['inds'] = [dict(i_, doses=[d_ for d_ in i_['doses'] if d_[0] is not None])
+                    for i_ in case['inds']]
     if case.get('earlier') == 'nodose':
         # ... and the final dataset carries no dose information at all
         df = df[df['Dose'].isna()].drop(columns=[
@@ -523,7 +534,107 @@ def w_dataset(case):
         'violations': viol}
 
 
+PARMET_XML = '''<?xml version="1.0" encoding="UTF-8"?>
+<sbml xmlns="http://www.sbml.org/sbml/level3/version2/core" level="3" version="2">
+  <model id="parmet" timeUnits="day">
+    <listOfUnitDefinitions>
+      <unitDefinition id="day"><listOfUnits><unit kind="second" exponent="1" scale="0" multiplier="86400"/></listOfUnits></unitDefinition>
+    </listOfUnitDefinitions>
+    <listOfCompartments>
+      <compartment id="mid" name="mid" size="1" constant="true"/>
+    </listOfCompartments>
+    <listOfSpecies>
+      <species id="drug_par" name="par" compartment="mid" initialAmount="0" hasSubstanceUnits="false" boundaryCondition="false" constant="false"/>
+      <species id="drug_met" name="met" compartment="mid" initialAmount="0" hasSubstanceUnits="false" boundaryCondition="false" constant="false"/>
+    </listOfSpecies>
+    <listOfParameters>
+      <parameter id="k_pm" value="1" constant="true"/>
+      <parameter id="k_e" value="1" constant="true"/>
+    </listOfParameters>
+    <listOfReactions>
+      <reaction id="r0" reversible="false">
+        <listOfReactants><speciesReference species="drug_par" constant="true"/></listOfReactants>
+        <listOfProducts><speciesReference species="drug_met" constant="true"/></listOfProducts>
+        <kineticLaw><math xmlns="http://www.w3.org/1998/Math/MathML"><apply><times/><ci>mid</ci><ci>k_pm</ci><ci>drug_par</ci></apply></math></kineticLaw>
+      </reaction>
+      <reaction id="r1" reversible="false">
+        <listOfReactants><speciesReference species="drug_met" constant="true"/></listOfReactants>
+        <kineticLaw><math xmlns="http://www.w3.org/1998/Math/MathML"><apply><times/><ci>mid</ci><ci>k_e</ci><ci>drug_met</ci></apply></math></kineticLaw>
+      </reaction>
+    </listOfReactions>
+  </model>
+</sbml>
+'''
+PARMET_DESC = {'comps': [{'id': 'par'}, {'id': 'met'}], 'derived': {}, 'inter': {},
+               'reactions': [{'from': 'par', 'to': 'met', 'k': 'k_pm'},
+                             {'from': 'met', 'to': None, 'k': 'k_e'}]}
+
+
+def w_amount_var(case):
+    """Two species (parent drug, metabolite) in ONE compartment: the dose enters the
+    state variable named by the LAST set_administration call, directly or through a
+    depot, whatever calls came before."""
+    viol = []
+    tmp = tempfile.mkdtemp(prefix='vc10_')
+    try:
+        path = os.path.join(tmp, 'parmet.xml')
+        with open(path, 'w') as f:
+            f.write(PARMET_XML)
+        m = chi.PKPDModel(path)
+    finally:
+        shutil.rmtree(tmp, ignore_errors=True)
+    last = None
+    for sp, direct in case['calls']:
+        m.set_administration('mid', amount_var='drug_%s_amount' % sp, direct=direct)
+        last = (sp, direct)
+    if case.get('via') == 'reduced':
+        m = chi.ReducedMechanisticModel(m)
+    apply_regimen(m, case['reg'])
+    sp, direct = last
+    outs = ['mid.drug_par_amount', 'mid.drug_met_amount']
+    if not direct:
+        outs = outs + ['dose.drug_amount']
+    m.set_outputs(outs)
+    names = list(m.parameters())
+    want = ['mid.drug_par_amount', 'mid.drug_met_amount', 'mid.size',
+            'global.k_pm', 'global.k_e'] + (
+                [] if direct else ['dose.drug_amount', 'dose.absorption_rate'])
+    if sorted(names) != sorted(want):
+        return {'transitions': 3, 'outcome': 'names', 'violations': [{
+            'sub': 'amount_var_names', 'message': 'parameters of the two-species '
+            'model after %s are not its own (+ depot)' % case['calls'],
+            'expected': sorted(want), 'observed': sorted(names),
+            'behaviour': 'amount_var_names'}]}
+    val = {'mid.drug_par_amount': 0.3, 'mid.drug_met_amount': 0.1, 'mid.size': 1.7,
+           'global.k_pm': 0.8, 'global.k_e': 0.45, 'dose.drug_amount': 0.2,
+           'dose.absorption_rate': 1.3}
+    t_end = 3.0
+    events = reg_events(case['reg'], t_end + 1.0)
+    times = lattice(events, t_end)
+    y = m.simulate([val[n_] for n_ in names], times)
+    y = np.asarray(y[0] if isinstance(y, tuple) else y, dtype=float)
+    v = {'par.drug_par_amount': val['mid.drug_par_amount'],
+         'met.drug_met_amount': val['mid.drug_met_amount'],
+         'par.size': val['mid.size'], 'met.size': val['mid.size'],
+         'global.k_pm': val['global.k_pm'], 'global.k_e': val['global.k_e'],
+         'dose.drug_amount': val['dose.drug_amount'],
+         'dose.absorption_rate': val['dose.absorption_rate']}
+    r = rc.solve(PARMET_DESC, v, times, dosed=sp, events=events, depot=not direct)
+    exp = [r['par.drug_par_amount'], r['met.drug_met_amount']]
+    if not direct:
+        exp.append(r['dose.drug_amount'])
+    exp = np.real(np.array(exp))
+    if y.shape != exp.shape or not tol.allclose(y, exp, 2e-6, 1e-8):
+        viol.append({'sub': 'amount_var', 'message': 'the dose does not enter the '
+                     'state variable named last (%s, calls %s)'
+                     % (sp, case['calls']), 'expected': exp, 'observed': y,
+                     'behaviour': 'amount_var'})
+    return {'transitions': len(case['calls']) + 3, 'outcome': tol.rnd(y, 7),
+            'violations': viol}
+
+
 WORKERS = {'schedule': w_schedule, 'table': w_table, 'dataset': w_dataset,
+           'amount_var': w_amount_var,
            'wrapped_table': w_wrapped_table}
 
 
@@ -576,8 +687,8 @@ def build(tier, seed):
                          'size': vals.real('c10.size', 0.7, 2.0, seed)}
                     c.update(perms)
                     c['sens_seq'] = ['none', 'on_on', 'on_subset', 'on_off',
-                                     'off_on'][i % 5]
-                    c['flag'] = ['bool', 'np', 'int'][(i // 5) % 3]
+                                     'off_on', 'on_outputs'][i % 6]
+                    c['flag'] = ['bool', 'np', 'int'][(i // 6) % 3]
                     sched.append(c)
                     if reg.get('kind') == 'regimen' and (
                             tier == 'thorough' or i % 2 == 0):
@@ -620,7 +731,10 @@ def build(tier, seed):
     data = []
     row_opts = [[], [(0.0, 2.0, 0.5)], [(1.0, 3.0, None)],
                 [(0.0, 1.0, 0.25), (2.0, 4.0, None)],
-                [(3.0, 2.5, 1.0), (0.5, 1.5, 0.1)]]
+                [(3.0, 2.5, 1.0), (0.5, 1.5, 0.1)],
+                # a dose row without a time (skipped) in front of / between others
+                [(None, 9.0, 0.2), (1.0, 3.0, 0.4), (2.0, 1.5, 0.5)],
+                [(0.5, 2.0, 0.3), (None, 7.0, None), (1.5, 1.0, 0.1)]]
     for a, b in itertools.product(range(len(row_opts)), repeat=2):
         for dcol in (True, False):
             for ids in ([1, 2], ['a', 'b']):
@@ -629,8 +743,9 @@ def build(tier, seed):
                         {'id': ids[1], 'obs': [(1.0, 0.9)], 'doses': row_opts[b]}]
                 data.append({'inds': inds, 'duration_column': dcol})
                 if ids == [1, 2]:
-                    data.append({'inds': inds, 'duration_column': dcol,
-                                 'same_row': True})
+                    if all(d_[0] is not None for i_ in inds for d_ in i_['doses']):
+                        data.append({'inds': inds, 'duration_column': dcol,
+                                     'same_row': True})
                     data.append({'inds': inds, 'duration_column': dcol,
                                  'fix_first': True})
                     if dcol:
@@ -638,8 +753,25 @@ def build(tier, seed):
                                      'earlier': 'with'})
                         data.append({'inds': inds, 'duration_column': dcol,
                                      'earlier': 'nodose'})
+    av = []
+    av_calls = [(sp_, d_) for sp_ in ('par', 'met') for d_ in (True, False)]
+    av_regs = [regs[0], regs[len(regs) // 2], protos[0]]
+    for n_ in (1, 2, 3):
+        for calls in itertools.product(av_calls, repeat=n_):
+            if n_ == 3 and tier == 'quick' and calls[0] != calls[2]:
+                continue
+            for ri, reg in enumerate(av_regs):
+                if n_ > 1 and ri != (len(av) % 3):
+                    continue
+                av.append({'calls': [list(c_) for c_ in calls], 'reg': reg})
+                if n_ == 2:
+                    av.append({'calls': [list(c_) for c_ in calls], 'reg': reg,
+                               'via': 'reduced'})
     return {
         'parts': [
+            Part('amount_var', av, w_amount_var,
+                 'two species in one compartment: every sequence of <= 3 '
+                 'set_administration calls over (amount variable x route)'),
             Part('schedule', sched, w_schedule,
                  'regimen product x route x dosed compartment x model'),
             Part('table', table, w_table,
@@ -678,3 +810,8 @@ META = {
                   'start+duration), periodic with multiplier) as myokit documents; '
                   'CVODES event handling itself is outside this check.',
 }
+META['level_text'] += (
+    ' Also: two species in one compartment (every sequence of <= 3 set_administrati'
+    "on calls over amount variable x route), a model with its own 'dose' compartmen"
+    't, datasets given after an earlier dataset (with / without dose information), '
+    'dose rows without a time, outputs re-selected while sensitivities are on.')
